@@ -2667,9 +2667,13 @@ PPL::Grid::time_elapse_assign(const Grid& y) {
     }
   }
 
+  // The origin, if it was a point of `y', has become an invalid
+  // (i.e., zero) parameter: erase it.
+  gs.remove_invalid_lines_and_parameters();
+
   PPL_ASSERT(gs.sys.OK());
 
-  if (gs_num_rows == 0) {
+  if (gs.has_no_rows()) {
     // `y' was the grid containing a single point at the origin, so
     // the result is `x'.
     return;
